@@ -463,6 +463,43 @@ def run(ctx):
     if survived:
         ctx.notes["perturbations_survived"] = survived
 
+    # ---------------------------------------------------------------- 7b. wire-level tampering of the signature set
+    # byte-level mutants of the signature set(s) of serialized block items (plain and sponsored): duplicated
+    # credential entry, duplicated key index, entries out of order, zero-length maps.  A mutant that differs from
+    # the original must be rejected at parse, or fail verification, or be canonical (re-serialize to itself).
+    ctx.log("wire-level signature set tampering")
+    n_w = 60 if ctx.quick else 1500
+    rc, out = c.run_bin(binp, ["wire", ctx.seed, n_w], timeout=1800)
+    if rc != 0:
+        ctx.violation({"layer": "harness run", "output": out[-2000:]}, "wire tamper harness crashed", no_input=True)
+        return
+    wire = [json.loads(l) for l in out.splitlines() if l.startswith("{")]
+    wsum = [d for d in wire if d["k"] == "wire_summary"]
+    reported = 0
+    for d in wire:
+        if d["k"] == "wire_base_bad":
+            ctx.violation({"harness": "c06 wire %d %d" % (ctx.seed, n_w), "block_item_hex": d["original"], "version": d["v"]},
+                          "an honestly signed serialized block item (v%d) does not parse+verify+re-serialize identically" % d["v"])
+        elif d["k"] == "wire" and reported < 12:
+            reported += 1
+            ctx.violation({"harness": "c06 wire %d %d" % (ctx.seed, n_w), "class": d["cls"], "sub_class": d["sub"], "version": d["v"],
+                           "signature_set": d["set"], "mutant_block_item_hex": d["mutant"], "original_block_item_hex": d["original"],
+                           "replay": "BlockItem::<EncodedPayload>::deserial(mutant) ; verify_transaction_signature ; to_bytes != mutant"},
+                          "%s: a tampered signature set (%s/%s, %s signatures, v%d) parses, verifies and re-serializes to different bytes"
+                          % (d["outcome"], d["cls"], d["sub"], d["set"], d["v"]))
+    if len(wsum) != 1:
+        ctx.violation({"layer": "harness run", "output": out[-2000:]}, "wire tamper harness printed no summary", no_input=True)
+        return
+    per_class = {}
+    for k, v in wsum[0]["counts"].items():
+        cls, outcome = k.split("|")
+        per_class.setdefault(cls, {})[outcome] = v
+    ctx.notes["wire_mutants_per_class"] = per_class
+    ctx.notes["wire_base_transactions"] = {"plain": n_w, "sponsored_v1": n_w}
+    for cls in ("dup_cred", "dup_key", "order", "zero"):
+        if sum(per_class.get(cls, {}).values()) == 0:
+            ctx.violation({"layer": "harness run", "class": cls}, "wire tamper stream produced no mutant of class %s" % cls, no_input=True)
+
     # ---------------------------------------------------------------- 8. updates
     ctx.log("updates")
     n_u = 300 if ctx.quick else 3000
